@@ -50,6 +50,10 @@ func (e *Engine) localsEnv(st *State, fr *Frame, env *Env) {
 			}
 			r, bound := fr.regs[a]
 			if !bound {
+				// declared later on other paths: an unconstrained value, so that guarded assertions can mention it
+				if _, seen := env.vars[a.Comment]; !seen {
+					env.vars[a.Comment] = st.freshVal("undeclared_"+a.Comment, deref(a.Type()))
+				}
 				continue
 			}
 			var v Val
@@ -103,6 +107,14 @@ func (e *Engine) atLoopHeader(st *State, fr *Frame, b *ssa.BasicBlock) {
 	if ctx, seen := fr.loopSeen[b]; seen {
 		// back edge
 		switch ctx.mode {
+		case 3: // unrolled
+			nc := *ctx
+			nc.remaining--
+			fr.loopSeen[b] = &nc
+			if nc.remaining < 0 {
+				st.dead = true
+			}
+			return
 		case 1: // discovery
 			st.dead = true
 		case 2: // houdini
@@ -115,6 +127,11 @@ func (e *Engine) atLoopHeader(st *State, fr *Frame, b *ssa.BasicBlock) {
 		return
 	}
 	li := e.loopsOf(fr.fn)[b]
+	// range loops over a collection of small constant length are unrolled instead of cut
+	if n, ok := e.constTripCount(st, fr, b); ok && len(e.loopInvs(fr, b)) == 0 {
+		fr.loopSeen[b] = &loopCtx{mode: 3, remaining: n + 1}
+		return
+	}
 	e.checkLoopInvariants(st, fr, b, "entry")
 	stop := &stopCtx{depth: depth, blocks: li.blocks, header: b}
 	c0 := freshCounter
@@ -448,4 +465,22 @@ func describeCands(cs []cand) string {
 		s = append(s, c.text)
 	}
 	return strings.Join(s, "; ")
+}
+
+// constTripCount recognises "for i := range s" (rangeindex loop) whose length operand is a small constant on
+// this path (typically a variadic argument list).
+func (e *Engine) constTripCount(st *State, fr *Frame, b *ssa.BasicBlock) (int, bool) {
+	if b.Comment != "rangeindex.loop" {
+		return 0, false
+	}
+	for _, ins := range b.Instrs {
+		if bo, ok := ins.(*ssa.BinOp); ok && bo.Op.String() == "<" {
+			if v, bound := fr.regs[bo.Y]; bound {
+				if n, isConst := smallConst(v.S); isConst && n <= 6 {
+					return int(n), true
+				}
+			}
+		}
+	}
+	return 0, false
 }
